@@ -119,6 +119,14 @@ func ssoModelLine(r *SsoRun, prov *provider.Provider) (string, string, error) {
 		}
 		if decoded.Issuer != nil && r.Case["lookup"] == "ok" {
 			sp = r.Storage.SPs[decoded.Issuer.Text]
+			if sp == nil && r.Storage.FoldEntityCase {
+				// the oracle answer is what the storage returns: this storage resolves entity IDs case-insensitively
+				for id, cand := range r.Storage.SPs {
+					if strings.EqualFold(id, decoded.Issuer.Text) {
+						sp = cand
+					}
+				}
+			}
 		}
 	}
 	ora["timeParse"] = timeTable(now, provider.DefaultTimeFormat, timeVals...)
